@@ -103,11 +103,11 @@ claim("C19",
 # Rules added after the first claim (most of them after a seeded change had been missed, DESIGN.md §10.1);
 # appended to the level text by gen_manifest.py.
 ADDENDA = {
-    "C01": "",
-    "C02": " Also decided: the comparator the merged list is sorted with is a lexicographic ascending '<' over the key values (truth table over the three relations, by CFG simulation of the sort closure).",
+    "C01": " Also decided: the error-result sites name the look-up on the local device with the datagram's destination; address look-ups never match by prefix; no approval timer outlives its peer.",
+    "C02": " Also decided: the comparator the merged list is sorted with is a lexicographic ascending '<' over the key values (truth table over the three relations, by CFG simulation of the sort closure). Also decided: truth tables of model.Merge (per existing and per new item), of FilterData.SelectorMatch and of the delete stage, and that the identity string separates its key parts.",
     "C03": " Also decided: the gate objects are found in ProcessCmd or in single-call-site helpers of it; a binding is revoked exactly for its own client (retain truth tables of RemoveBinding and RemoveBindingsForEntity).",
-    "C04": " Also decided: failure monotonicity of the generic engine (under every assignment of stage outcomes a path on which a failed stage ran returns false), and the success && persist guard of all per-type UpdateList siblings.",
-    "C05": " Also covered: getters whose field is nil by construction (derived from constructors called with nil, e.g. the address of a remote device before discovery) and custom JSON decoders as additional roots of the inbound tree.",
+    "C04": " Also decided: failure monotonicity of the generic engine (under every assignment of stage outcomes a path on which a failed stage ran returns false), and the success && persist guard of all per-type UpdateList siblings. Also decided: truth tables of model.Merge and of the delete stage (no item disappears silently), cross-wiring lint over the update roles including field selectors.",
+    "C05": " Also covered: getters whose field is nil by construction (derived from constructors called with nil, e.g. the address of a remote device before discovery) and custom JSON decoders as additional roots of the inbound tree. Also decided: inbound discovery data cannot remove the remote NodeManagement feature; API entry points that receive an inbound message back from the application are roots of the nil analysis.",
     "C06": " Also decided: the element removed is the same list element (loop variable) as the one tested; RemoveAllFeatures dominates every AddFeature on an existing remote entity; the retain truth tables of the per-entity clean-ups.",
     "C07": " Also decided: retain truth table of RemoveEntity (a rebuild loop left with break is a violation); every read-modify-write of the entity and feature lists lies in one critical section.",
     "C08": " Also decided: the fan-out loop has no early exit; every read-modify-write of the subscription list lies in one critical section.",
@@ -118,7 +118,7 @@ ADDENDA = {
     "C13": "",
     "C14": "",
     "C15": " Also decided: the loop over the levels strictly encloses the loop over the handlers; every read-modify-write of the handler list lies in one critical section.",
-    "C16": "",
+    "C16": " Also decided: the refresh goroutine is only spawned when the local feature is known; the fan-out reaches every subscriber.",
     "C17": " Also decided: the ownership rule C11-O3 as a race rule (no in-place write into data reachable from snapshots that are read without locks).",
     "C18": " Also decided: no pointer-to-interface reaches the reflective setters; a field rewritten by both MarshalJSON and UnmarshalJSON is rewritten under the same presence conditions.",
     "C19": " Also decided: encoder/decoder guard agreement of the time period, and the FormatFloat parameters the decimal count is derived from.",
